@@ -272,7 +272,7 @@ Section Liu.
       replace (row <? col) with true by (symmetry; apply Z.ltb_lt; lia).
       specialize (Hanc Hrl).
       destruct (uf_find (find_fuel nc) pp row) as [[rset pp1]|] eqn:Ef; [|discriminate].
-      destruct (uf_find_reach _ _ _ _ _ _ _ Huf ltac:(lia) Ef) as [Hreq Hrr].
+      destruct (uf_find_reach (find_fuel nc) (col + 1) pp L row rset pp1 Huf ltac:(lia) Ef) as [Hreq Hrr].
       assert (Hreq' : forall x s, 0 <= x <= col -> (uf_reach pp1 x s <-> uf_reach pp x s)) by (intros; apply Hreq; lia).
       (* facts about the result of find *)
       assert (HlenL : (length L + 1 <= find_fuel nc)%nat).
@@ -334,7 +334,7 @@ Section Liu.
           -- auto.
         * (* A2 *)
           intros x r Hx Hr. destruct (Hnew x Hx) as [r0 [u [H0 [Eu [Hu [H2 Hc2]]]]]].
-          assert (r = if r0 =? cset then rset else r0) by (eapply uf_reach_fun; eauto). subst r.
+          assert (r = if r0 =? cset then rset else r0) by (exact (uf_reach_fun _ _ _ _ Hr H2)). subst r.
           exists (if u =? t then col else u). split; auto.
           rewrite (aget_aset _ _ _ _ _ E3).
           destruct (r0 =? cset) eqn:E0c.
@@ -350,10 +350,10 @@ Section Liu.
           intros x y r1 r2 w Hx Hy H1 H2 Hc1 Hc2.
           destruct (Hnew x Hx) as [r0x [ux [H0x [Eux [Hux [H2x Hc2x]]]]]].
           destruct (Hnew y Hy) as [r0y [uy [H0y [Euy [Huy [H2y Hc2y]]]]]].
-          assert (r1 = if r0x =? cset then rset else r0x) by (eapply uf_reach_fun; eauto).
-          assert (r2 = if r0y =? cset then rset else r0y) by (eapply uf_reach_fun; eauto).
-          assert (Ew1 : w = if ux =? t then col else ux) by (eapply ctop_fun; eauto).
-          assert (Ew2 : w = if uy =? t then col else uy) by (eapply ctop_fun; eauto).
+          assert (r1 = if r0x =? cset then rset else r0x) by (exact (uf_reach_fun _ _ _ _ H1 H2x)).
+          assert (r2 = if r0y =? cset then rset else r0y) by (exact (uf_reach_fun _ _ _ _ H2 H2y)).
+          assert (Ew1 : w = if ux =? t then col else ux) by (exact (ctop_fun _ _ _ _ Hc1 Hc2x)).
+          assert (Ew2 : w = if uy =? t then col else uy) by (exact (ctop_fun _ _ _ _ Hc2 Hc2y)).
           subst r1 r2.
           (* sets whose top is col or t are exactly cset and rset *)
           assert (Hcol_set : forall z r0 u, 0 <= z <= col -> uf_reach pp1 z r0 -> ctop parent z u -> u = col -> r0 = cset).
@@ -372,16 +372,210 @@ Section Liu.
              assert (ux = col) by congruence.
              rewrite (Hcol_set x r0x ux Hx H0x Hux H). rewrite Z.eqb_refl.
              replace (rset =? cset) with false by (symmetry; apply Z.eqb_neq; auto). reflexivity.
-          -- assert (ux = uy) by congruence. subst uy.
-             assert (r0x = r0y).
-             { apply (A3 x y r0x r0y ux); auto; apply Hreq'; auto. }
-             subst r0y. reflexivity.
+          -- assert (Euxy : ux = uy) by congruence.
+             assert (Er0 : r0x = r0y).
+             { apply (A3 x y r0x r0y ux Hx Hy).
+               - apply Hreq'; auto.
+               - apply Hreq'; auto.
+               - exact Hux.
+               - rewrite Euxy. exact Huy. }
+             rewrite Er0. reflexivity.
         * (* A4 *)
           intros f [<-|Hf].
           -- split; [lia|]. eapply ctop_link_eq; eauto; lia.
-          -- destruct (A4 f Hf) as [Hf1 Hf2]. split; auto. eapply ctop_link_ne; eauto. lia.
+          -- destruct (A4 f Hf) as [Hf1 Hf2]. split; auto. eapply ctop_link_ne; eauto; lia.
         * (* A5 *)
           pose proof (reach_link pp1 pp2 cset rset col cset E2 Hcset_root Hrset_root Hne) as H.
           rewrite Z.eqb_refl in H. apply H. apply Hreq'; auto. lia.
+  Qed.
+
+  (* ---------------------------------------------------------------------------------------- *)
+  (* between columns *)
+  Definition semc_inv (col : Z) (st : list Z * list Z * list Z) : Prop :=
+    let '(parent, pp, root) := st in
+    (forall j v, 0 <= j < col -> aget parent j = Some v -> (v = P j /\ P j < col) \/ (v = nc /\ col <= P j)) /\
+    (forall x r, 0 <= x < col -> uf_reach pp x r -> exists t, aget root r = Some t /\ ctop parent x t) /\
+    (forall x y r1 r2 t, 0 <= x < col -> 0 <= y < col -> uf_reach pp x r1 -> uf_reach pp y r2 ->
+                         ctop parent x t -> ctop parent y t -> r1 = r2).
+
+  Lemma reach_below : forall col pp L pp1, uf_inv col pp L -> aset pp col col = Some pp1 ->
+    forall x r, 0 <= x < col -> (uf_reach pp1 x r <-> uf_reach pp x r) /\ (uf_reach pp x r -> 0 <= r < col).
+  Proof.
+    intros col pp L pp1 [_ [_ Hall]] E1.
+    assert (H1 : forall x r, uf_reach pp1 x r -> 0 <= x < col -> uf_reach pp x r).
+    { intros x r H. induction H as [r Hr|x y r Hx Hne H IH]; intros Hc.
+      - constructor. rewrite (aget_aset_other _ _ _ _ r E1) in Hr; auto. lia.
+      - rewrite (aget_aset_other _ _ _ _ x E1) in Hx by lia.
+        destruct (Hall x Hc) as [v [Ev [Hv _]]]. assert (v = y) by congruence. subst v.
+        econstructor; eauto. }
+    assert (H2 : forall x r, uf_reach pp x r -> 0 <= x < col -> uf_reach pp1 x r /\ 0 <= r < col).
+    { intros x r H. induction H as [r Hr|x y r Hx Hne H IH]; intros Hc.
+      - split; auto. constructor. rewrite (aget_aset_other _ _ _ _ r E1); auto. lia.
+      - destruct (Hall x Hc) as [v [Ev [Hv _]]]. assert (v = y) by congruence. subst v.
+        destruct (IH Hv) as [Ha Hb]. split; auto.
+        econstructor; eauto. rewrite (aget_aset_other _ _ _ _ x E1); auto. lia. }
+    intros x r Hx. split; [split; [intros; apply H1; auto|intros H; apply (H2 x r H Hx)]|intros H; apply (H2 x r H Hx)].
+  Qed.
+
+  Lemma ctop_below : forall col parent parent1,
+    (forall j v, 0 <= j < col -> aget parent j = Some v -> (v = P j /\ P j < col) \/ (v = nc /\ col <= P j)) ->
+    col < nc -> aset parent col nc = Some parent1 ->
+    forall x t, 0 <= x < col -> (ctop parent1 x t <-> ctop parent x t) /\ (ctop parent x t -> 0 <= t < col).
+  Proof.
+    intros col parent parent1 B1 Hcol E1.
+    assert (H1 : forall x t, ctop parent1 x t -> 0 <= x < col -> ctop parent x t).
+    { intros x t H. induction H as [x Hx|x y t Hx Hne H IH]; intros Hc.
+      - constructor. rewrite (aget_aset_other _ _ _ _ x E1) in Hx; auto. lia.
+      - rewrite (aget_aset_other _ _ _ _ x E1) in Hx by lia.
+        destruct (B1 x y Hc Hx) as [[Ey Hy]|[Ey _]]; [|congruence].
+        pose proof (Pfor x ltac:(lia)). econstructor; eauto. apply IH. lia. }
+    assert (H2 : forall x t, ctop parent x t -> 0 <= x < col -> ctop parent1 x t /\ 0 <= t < col).
+    { intros x t H. induction H as [x Hx|x y t Hx Hne H IH]; intros Hc.
+      - split; auto. constructor. rewrite (aget_aset_other _ _ _ _ x E1); auto. lia.
+      - destruct (B1 x y Hc Hx) as [[Ey Hy]|[Ey _]]; [|congruence].
+        pose proof (Pfor x ltac:(lia)). destruct IH as [Ha Hb]; [lia|]. split; auto.
+        econstructor; eauto. rewrite (aget_aset_other _ _ _ _ x E1); auto. lia. }
+    intros x t Hx. split; [split; [intros; apply H1; auto|intros H; apply (H2 x t H Hx)]|intros H; apply (H2 x t H Hx)].
+  Qed.
+
+  Lemma make_set_sem : forall col parent pp root L pp1 root1 parent1,
+    0 <= col < nc -> uf_inv col pp L -> semc_inv col (parent, pp, root) ->
+    aset pp col col = Some pp1 -> aset root col col = Some root1 -> aset parent col nc = Some parent1 ->
+    sem_inv col (parent1, pp1, root1, col) [].
+  Proof.
+    intros col parent pp root L pp1 root1 parent1 Hcol Huf [B1 [B2 B3]] E1 E2 E3.
+    pose proof (reach_below col pp L pp1 Huf E1) as Hrb.
+    pose proof (ctop_below col parent parent1 B1 ltac:(lia) E3) as Hcb.
+    assert (Hcc : uf_reach pp1 col col) by (constructor; eapply aget_aset_same; eauto).
+    assert (Htc : ctop parent1 col col) by (constructor; eapply aget_aset_same; eauto).
+    unfold sem_inv. split; [|split; [|split; [|split]]].
+    - intros j v Hj Ev. rewrite (aget_aset _ _ _ _ j E3) in Ev. destruct (j =? col) eqn:Ejc.
+      + apply Z.eqb_eq in Ejc. subst j. inversion Ev; subst v. right. split; auto. pose proof (Pfor col Hcol). lia.
+      + apply Z.eqb_neq in Ejc. destruct (B1 j v ltac:(lia) Ev) as [[Ey Hy]|[Ey Hy]]; [left; split; auto; lia|right; auto].
+    - intros x r Hx Hr. destruct (Z.eq_dec x col) as [->|Hne].
+      + assert (r = col) by (exact (uf_reach_fun _ _ _ _ Hr Hcc)). subst r. exists col. split; auto. eapply aget_aset_same; eauto.
+      + destruct (Hrb x r ltac:(lia)) as [Heq Hlt]. apply Heq in Hr. destruct (Hlt Hr) as [Hr0 Hr1].
+        destruct (B2 x r ltac:(lia) Hr) as [t [Et Ht]]. exists t. split.
+        * rewrite (aget_aset_other _ _ _ _ r E2); auto. lia.
+        * apply (Hcb x t); auto. lia.
+    - intros x y r1 r2 t Hx Hy H1 H2 Hc1 Hc2.
+      destruct (Z.eq_dec x col) as [->|Hnx]; destruct (Z.eq_dec y col) as [->|Hny].
+      + exact (uf_reach_fun _ _ _ _ H1 H2).
+      + assert (t = col) by (exact (ctop_fun _ _ _ _ Hc1 Htc)). subst t.
+        destruct (Hcb y col ltac:(lia)) as [Heq Hlt]. apply Heq in Hc2. apply Hlt in Hc2. lia.
+      + assert (t = col) by (exact (ctop_fun _ _ _ _ Hc2 Htc)). subst t.
+        destruct (Hcb x col ltac:(lia)) as [Heq Hlt]. apply Heq in Hc1. apply Hlt in Hc1. lia.
+      + apply (B3 x y r1 r2 t); try lia.
+        * apply (Hrb x r1); auto. lia.
+        * apply (Hrb y r2); auto. lia.
+        * apply (Hcb x t); auto. lia.
+        * apply (Hcb y t); auto. lia.
+    - intros f [].
+    - auto.
+  Qed.
+
+  Lemma end_col_sem : forall col parent pp root cset L done,
+    0 <= col < nc -> full_inv col (parent, pp, root, cset) L done ->
+    (forall j, 0 <= j < col -> P j = col -> exists f, In f done /\ anc f j) ->
+    semc_inv (col + 1) (parent, pp, root).
+  Proof.
+    intros col parent pp root cset L done Hcol [Hct [A1 [A2 [A3 [A4 A5]]]]] Hcomp.
+    unfold semc_inv. split; [|split].
+    - intros j v Hj Ev. destruct (A1 j v ltac:(lia) Ev) as [[Ey Hy]|[Ey Hy]]; [left; split; auto; lia|].
+      destruct (Z.eq_dec (P j) col) as [Epc|Epc]; [|right; split; auto; lia].
+      exfalso. assert (Hjc : j < col) by (pose proof (Pfor j ltac:(lia)); lia).
+      destruct (Hcomp j ltac:(lia) Epc) as [f [Hf Hanc]]. destruct (A4 f Hf) as [Hf1 Hf2].
+      pose proof (chain_set col parent f j ltac:(lia) A1 Hf2 ltac:(lia) Hanc Hjc) as Hset.
+      rewrite Hset in Ev. inversion Ev. lia.
+    - intros x r Hx. apply A2. lia.
+    - intros x y r1 r2 t Hx Hy. apply A3; lia.
+  Qed.
+
+  (* ---------------------------------------------------------------------------------------- *)
+  Variables (rowof : Z -> option Z) (acolst acolend : list Z).
+  Hypothesis Hcols : forall c, 0 <= c < nc -> exists s e, aget acolst c = Some s /\ aget acolend c = Some e /\
+    (forall p, s <= p < e -> exists f, rowof p = Some f /\ 0 <= f /\ (f < c -> anc f c)) /\
+    (forall j, 0 <= j < c -> P j = c -> exists p f, s <= p < e /\ rowof p = Some f /\ 0 <= f < c /\ anc f j).
+
+  Lemma zrange_max : forall s e, zrange s e = zrange s (Z.max s e).
+  Proof.
+    intros s e. destruct (Z_le_dec s e); [now rewrite Z.max_r by lia|].
+    rewrite Z.max_l by lia. rewrite !zrange_empty by lia. reflexivity.
+  Qed.
+
+  Lemma ct_col_sem : forall st col, 0 <= col < nc -> ctc_inv nc col st -> semc_inv col st ->
+    exists st', ct_col (find_fuel nc) nc rowof acolst acolend st col = Some st' /\
+                ctc_inv nc (col + 1) st' /\ semc_inv (col + 1) st'.
+  Proof.
+    intros [[parent pp] root] col Hcol Hinv Hsem.
+    destruct (Hcols col Hcol) as [s [e [Es [Ee [Hrows Hcomp]]]]].
+    pose proof Hinv as [Lp [Lpp [Lr [[L Huf] [Hroot Hpar]]]]].
+    unfold ct_col.
+    destruct (aset_total pp col col) as [pp1 E1]; [lia|]. rewrite E1.
+    destruct (aset_total root col col) as [root1 E2]; [lia|]. rewrite E2.
+    destruct (aset_total parent col nc) as [parent1 E3]; [lia|]. rewrite E3.
+    rewrite Es, Ee.
+    assert (Hinit : ct_inv nc col (parent1, pp1, root1, col) L).
+    { unfold ct_inv. rewrite (aset_len _ _ _ _ E1), (aset_len _ _ _ _ E2), (aset_len _ _ _ _ E3).
+      do 3 (split; auto). destruct Huf as [Hnd [HL Hall]].
+      assert (HcL : ~ In col L) by (intro Hc; apply HL in Hc; lia).
+      split.
+      { split; auto. split; [intros x Hx; apply HL in Hx; lia|].
+        intros i Hi. rewrite (aget_aset _ _ _ _ i E1). destruct (i =? col) eqn:Eic.
+        - apply Z.eqb_eq in Eic. subst i. exists col. split; auto. split; [lia|]. split; [tauto|congruence].
+        - apply Z.eqb_neq in Eic. destruct (Hall i) as [v [Ev [Hv Hrest]]]; [lia|]. exists v. split; auto. split; [lia|auto]. }
+      split; [lia|]. split; auto. split; [eapply aget_aset_same; eauto|]. split.
+      - intros i Hi. rewrite (aget_aset _ _ _ _ i E2). destruct (i =? col); [exists col; split; auto; lia|].
+        destruct (Hroot i Hi) as [v [Ev Hv]]. exists v; split; auto.
+      - intros j Hj. rewrite (aget_aset _ _ _ _ j E3). destruct (j =? col) eqn:Ejc.
+        + apply Z.eqb_eq in Ejc. subst j. exists nc. split; auto. lia.
+        + apply Z.eqb_neq in Ejc. apply Hpar. lia. }
+    pose proof (make_set_sem col parent pp root L pp1 root1 parent1 Hcol Huf Hsem E1 E2 E3) as Hsem0.
+    rewrite zrange_max.
+    destruct (ofold_zrange_inv
+      (fun st p => match rowof p with Some row => ct_edge (find_fuel nc) col st row | None => None end)
+      (fun i st => exists L' done, full_inv col st L' done /\
+                   forall p f, s <= p < i -> rowof p = Some f -> f < col -> In f done)
+      s (Z.max s e) (parent1, pp1, root1, col)) as [[[[parent2 pp2] root2] cset2] [Ef [L2 [done [Hfull Hdone]]]]].
+    - lia.
+    - exists L, []. split; [split; auto|]. intros; lia.
+    - intros i st0 Hi [L0 [done0 [Hf0 Hd0]]].
+      assert (Hie : s <= i < e) by lia.
+      destruct (Hrows i Hie) as [f [Er [Hf Hanc]]]. rewrite Er.
+      destruct (ct_edge_sem col st0 L0 done0 f Hcol Hf0 Hf Hanc) as [st' [L' [E' Hf']]].
+      exists st'. split; auto. exists L', (if f <? col then f :: done0 else done0). split; auto.
+      intros p f' Hp Ep Hlt. destruct (Z.eq_dec p i) as [->|Hne].
+      + assert (f' = f) by congruence. subst f'.
+        replace (f <? col) with true by (symmetry; apply Z.ltb_lt; auto). simpl; auto.
+      + assert (In f' done0) by (apply (Hd0 p); auto; lia). destruct (f <? col); simpl; auto.
+    - rewrite Ef. eexists. split; [reflexivity|].
+      pose proof Hfull as [[Q1 [Q2 [Q3 [Q4 [Q5 [Q6 [Q7 [Q8 Q9]]]]]]]] _].
+      split.
+      + unfold ctc_inv. do 3 (split; auto). split; [eauto|]. split.
+        * intros i Hi. destruct (Q8 i Hi) as [v [Ev Hv]]. exists v; split; auto. lia.
+        * intros j Hj. apply Q9. lia.
+      + apply (end_col_sem col parent2 pp2 root2 cset2 L2 done Hcol Hfull).
+        intros j Hj Epj. destruct (Hcomp j Hj Epj) as [p [f [Hp [Ep [Hf Hanc]]]]].
+        exists f. split; auto. apply (Hdone p); auto; lia.
+  Qed.
+
+  Theorem liu_correct :
+    exists parent pp root,
+      ofold (ct_col (find_fuel nc) nc rowof acolst acolend) (zrange 0 nc) (mk nc c_uninit, mk nc 0, mk nc 0)
+        = Some (parent, pp, root) /\ alen parent = nc /\ forall j, 0 <= j < nc -> aget parent j = Some (P j).
+  Proof.
+    destruct (ofold_zrange_inv (ct_col (find_fuel nc) nc rowof acolst acolend)
+                (fun c st => ctc_inv nc c st /\ semc_inv c st) 0 nc
+                (mk nc c_uninit, mk nc 0, mk nc 0)) as [[[parent pp] root] [E [Hc Hs]]]; auto.
+    - split.
+      + unfold ctc_inv. rewrite !alen_mk. do 3 (split; [lia|]). split.
+        * exists []. split; [constructor|]. split; [intros x []|intros; lia].
+        * split; [|intros; lia]. intros i Hi. exists 0. split; [apply aget_mk; auto|lia].
+      + unfold semc_inv. split; [intros; lia|]. split; intros; lia.
+    - intros i st Hi [Hc Hs]. destruct (ct_col_sem st i Hi Hc Hs) as [st' [E' [Hc' Hs']]]. exists st'. auto.
+    - exists parent, pp, root. split; auto.
+      destruct Hc as [Lp [_ [_ [_ [_ Hpar]]]]]. destruct Hs as [B1 _]. split; auto.
+      intros j Hj. destruct (Hpar j Hj) as [v [Ev Hv]]. rewrite Ev. f_equal.
+      destruct (B1 j v Hj Ev) as [[Ey _]|[Ey Hy]]; auto. pose proof (Pfor j Hj). lia.
   Qed.
 End Liu.
